@@ -103,6 +103,16 @@ def obs_paths(searcher, q, paths, limits=(0, 1, 2, 3), cmp="full", alt=False, aq
                 obs.append(o)
                 obs.append({"kind": "count", "path": "len(search(limit=%d))" % k, "n": len(r)})
             guard("search(limit=%d)" % k, f)
+    if "weightingquery" in paths:
+        # the query wrapped in a WeightingQuery that asks for the searcher's own (exact) weighting, run on a searcher
+        # that scores with another model: the scores are those of the wrapper's model
+        def f():
+            from whoosh import query, scoring
+            s2 = searcher.__class__(searcher.reader(), weighting=scoring.BM25F(), closereader=False)
+            r = s2.search(query.WeightingQuery(q, searcher.weighting), limit=None)
+            obs.append({"kind": "ranked", "path": "WeightingQuery(q, Frequency) on a BM25F searcher", "k": 0,
+                        "hits": hits_of(r), "cmp": cmp})
+        guard("weightingquery", f)
     if "unscored" in paths:
         def f():
             r = searcher.search(q, limit=None, scored=False)
